@@ -1,4 +1,4 @@
 INIT Init
 NEXT Next
-INVARIANT Inv
+INVARIANTS Inv DumpOK
 CHECK_DEADLOCK FALSE
